@@ -6,10 +6,13 @@ from common import WORK, ToolError, cache_get, cache_put, log, require_ok, tlc
 # (name, Cfg operator, MaxFail, liveness?)
 CONFIGS = {
     "quick": [("core1", "Core1", 1, True), ("core2", "Core2", 1, True),
-              ("retry2", "Retry2", 2, False), ("ff2", "FF2", 1, True)],
+              ("retry2", "Retry2", 2, False), ("ff2", "FF2", 1, True),
+              ("mix2", "Mix2", 2, False), ("wide3ff", "Wide3FF", 2, False)],
     "thorough": [("core1", "Core1", 2, True), ("core2", "Core2", 2, True),
                  ("retry2", "Retry2", 2, True), ("retry1", "Retry1", 2, True),
-                 ("ff2", "FF2", 2, True), ("noff2", "NoFF2", 2, True)],
+                 ("ff2", "FF2", 2, True), ("noff2", "NoFF2", 2, True),
+                 ("mix2", "Mix2", 3, True), ("mix2ff", "Mix2FF", 3, True), ("mixu", "MixU", 3, True),
+                 ("wide2", "Wide2", 3, True), ("wide3ff", "Wide3FF", 3, True)],
 }
 
 
